@@ -487,6 +487,11 @@ func (m *monitor) decryptSweep(files []*dfile) {
 			fmt.Printf("   timing: slow task %s sched=%s %.1fs\n", t.f.name(), t.s.name, d.Seconds())
 		}
 	})
+	th := time.Now()
+	m.headerSizeSweep(ss)
+	if os.Getenv("C12_TIMING") != "" {
+		fmt.Printf("   timing: header-size sweep %.2fs\n", time.Since(th).Seconds())
+	}
 	m.reportDiffers(ss)
 	for _, f := range files[:min(len(files), 3)] {
 		r.Sample(map[string]any{"file": f.name(), "bytes": len(f.data), "baseline": f.bDecrypt.String(),
